@@ -187,6 +187,16 @@ func unpublishedAt(r *Run, f *ssa.Function, v ssa.Value, at ssa.Instruction, dep
 					return publishedBefore(r, f, v, x, at)
 				}
 			}
+			if cal != nil && cal.Blocks != nil && depth < 3 {
+				// a helper whose every return is an allocation of its own that it has not published
+				if freshReturning(r, cal, depth) {
+					return publishedBefore(r, f, v, x, at)
+				}
+				// a helper returning an address derived from one of its parameters (e.g. the counter stripe of a table)
+				if pi, ok := returnsParamDerived(cal); ok && pi < len(x.Call.Args) {
+					return walk(x.Call.Args[pi])
+				}
+			}
 			return freshInfo{false, "result of " + fn(cal) + " is not a fresh allocation"}
 		case *ssa.Parameter:
 			idx := -1
@@ -209,6 +219,73 @@ func unpublishedAt(r *Run, f *ssa.Function, v ssa.Value, at ssa.Instruction, dep
 		return freshInfo{false, "value " + v.Name() + " (" + typeName(v.Type()) + ") is not an allocation of this activation"}
 	}
 	return walk(v)
+}
+
+// freshReturning: every return of callee yields an allocation made by that activation which is still
+// unpublished at the return.
+func freshReturning(r *Run, cal *ssa.Function, depth int) bool {
+	n := 0
+	ok := true
+	core.Instrs(cal, func(in ssa.Instruction) {
+		ret, isRet := in.(*ssa.Return)
+		if !isRet || len(ret.Results) == 0 {
+			return
+		}
+		n++
+		v := core.StripConv(ret.Results[0])
+		switch v.(type) {
+		case *ssa.Alloc, *ssa.MakeSlice, *ssa.Call, *ssa.Phi:
+			if fi := unpublishedAt(r, cal, v, ret, depth+1); !fi.OK {
+				ok = false
+			}
+		default:
+			ok = false
+		}
+	})
+	return ok && n > 0
+}
+
+// returnsParamDerived: every return of callee is an address (or pointer) derived from one and the same
+// parameter through field / index steps and loads of its fields.
+func returnsParamDerived(cal *ssa.Function) (int, bool) {
+	idx := -1
+	ok := true
+	n := 0
+	core.Instrs(cal, func(in ssa.Instruction) {
+		ret, isRet := in.(*ssa.Return)
+		if !isRet || len(ret.Results) != 1 {
+			return
+		}
+		n++
+		v := ret.Results[0]
+		for d := 0; d < 8; d++ {
+			v = core.StripConv(v)
+			a := core.Addr(v)
+			if a.Root != nil && a.Root != v {
+				v = a.Root
+				continue
+			}
+			if ld, isLd := v.(*ssa.UnOp); isLd {
+				v = ld.X
+				continue
+			}
+			break
+		}
+		p, isP := v.(*ssa.Parameter)
+		if !isP {
+			ok = false
+			return
+		}
+		for i, q := range cal.Params {
+			if q == p {
+				if idx >= 0 && idx != i {
+					ok = false
+				}
+				idx = i
+			}
+		}
+	})
+	return idx, ok && n > 0 && idx >= 0
 }
 
 // publishedBefore checks that no publication of the allocation `obj` can reach `at`.
